@@ -104,6 +104,44 @@ pub fn run(ctx: &mut Ctx) {
 		);
 		ctx.add(fam);
 	}
+	if ctx.wants("I_deep_indentation") {
+		let n = ctx.pick(20_000, 300_000);
+		let fam = Fam::new("I_deep_indentation", &format!("proptest: chains of arrays/objects 8..80 levels deep around a small value (some levels with a second member), printed with a random custom record whose limits are biased to force expansion (Always / Item(0) / Width(0..6)) so that lines are indented by up to 4 x 80 columns or 2 x 80 tabs; byte equality with the reference layout; {rule_nt}"), false);
+		let fam = run_proptest(
+			ctx,
+			fam,
+			n,
+			|| {
+				let lim = prop_oneof![3 => Just(Lim::Always), 2 => Just(Lim::Item(0)), 2 => (0usize..6).prop_map(Lim::Width), 1 => refprint::arb_lim()];
+				(gen::arb_value(gen::ValueCfg::SMALL), proptest::collection::vec((any::<bool>(), any::<bool>()), 8..80), refprint::arb_custom_opts(), lim.clone(), lim)
+			},
+			|(inner, levels, base, la, lo)| {
+				let mut v = inner.clone();
+				for (i, (is_obj, second)) in levels.iter().enumerate() {
+					v = if *is_obj {
+						let mut es = vec![(format!("l{i}"), v)];
+						if *second {
+							es.push(("s".into(), RefValue::Null));
+						}
+						RefValue::Obj(es)
+					} else if *second {
+						RefValue::Arr(vec![v, RefValue::num("0")])
+					} else {
+						RefValue::Arr(vec![v])
+					};
+				}
+				let mut o = base.clone();
+				o.array_limit = *la;
+				o.object_limit = *lo;
+				match property(&v, &OptCase::Custom(o), false) {
+					Ok((nt, classes)) => Outcome::ok(nt || levels.len() >= 32, classes),
+					Err(m) => Outcome::fail(m),
+				}
+			},
+			|(inner, levels, base, la, lo)| serde_json::json!({"inner": inner.encode(), "levels": levels.iter().map(|(a, b)| serde_json::json!([a, b])).collect::<Vec<_>>(), "base": refprint::opts_json(base), "array_limit": format!("{la:?}"), "object_limit": format!("{lo:?}")}),
+		);
+		ctx.add(fam);
+	}
 	if ctx.wants("B_small_values_x_option_set") {
 		ctx.begin_family("B_small_values_x_option_set");
 		let values = small_values();
@@ -136,7 +174,11 @@ pub fn run(ctx: &mut Ctx) {
 	ctx.assume("the reference layout printer (harness/src/refprint.rs) transcribes the rustdoc of print::Options / Limit: width = characters of the one-line form, empty containers use *_empty, expanded children are indented depth x unit");
 }
 
-pub fn replay(_family: &str, case: &J) -> Result<(), String> {
+pub fn replay(family: &str, case: &J) -> Result<(), String> {
+	if family == "I_deep_indentation" {
+		return Err("recorded for reading; re-run the family with the same VERIF_SEED to reproduce".into());
+	}
+	let _family = family;
 	let (v, oc, route) = case_decode(case);
 	property(&v, &oc, route).map(|_| ())
 }
